@@ -1065,9 +1065,12 @@ def g_unary(ctx, heap):
         return None
     x = heap[n]
     cplx = "complex" in _dtype_of(x)
-    ops = ["abs", "sqrt", "isfinite", "sum", "norm"]
+    ops = ["abs", "isfinite", "sum", "norm"]
     if not cplx:
-        ops += ["clip", "max", "min"]
+        # (complex sqrt has a branch cut on which the sign of a zero imaginary
+        # part decides the result: -(x) and (-x) differ there by IEEE rules
+        # although they are equal numbers)
+        ops += ["clip", "max", "min", "sqrt"]
     op = rng.choice(ops)
     a = {}
     if op == "clip":
